@@ -22,6 +22,7 @@ from enspara.cluster import hybrid as hy_mod
 from enspara.cluster import KCenters, KMedoids, KHybrid
 
 logging.getLogger("enspara").setLevel(logging.ERROR)
+_OMP_LIMIT = rc.single_thread_kernels()      # one OpenMP thread per shard process (see ref_cluster)
 
 PROPERTY = "C01"
 LEVEL = "exploration"
@@ -127,6 +128,7 @@ def _km_cfg(draw, n, entry, max_iters=4):
     k = draw(st.integers(1, kmax))
     cfg = {"start": start, "k": k, "centers": None, "container": "list", "lab_dtype": "int64",
            "lengths": None, "n_iters": draw(st.integers(1, max_iters)), "proposals": None}
+    explicit = entry == "kmedoids" and draw(st.sampled_from([True, False, True]))
     if start != "cold":
         cfg["centers"] = draw(st.lists(st.integers(0, n - 1), min_size=k, max_size=k, unique=True))
         cfg["container"] = draw(st.sampled_from(["list", "ndarray"]))
@@ -134,22 +136,24 @@ def _km_cfg(draw, n, entry, max_iters=4):
     if start in ("pairs", "pairs_state"):
         cfg["lengths"] = _lengths(draw, n)
         cfg["container"] = draw(st.sampled_from(["list_of_tuples", "list_of_lists"]))
-    if entry == "kmedoids" and draw(st.booleans()):
+    if explicit:
         cfg["proposals"] = draw(st.lists(st.integers(0, n - 1), min_size=k, max_size=k))
     return cfg
 
 
 @st.composite
 def cluster_case(draw, max_n=40, max_d=4, entries=ENTRIES, corner=None, min_n=1):
-    data = draw(rc.dataset(max_n=max_n, max_d=max_d, min_n=min_n))
-    n = len(data["sites"])
+    # configuration first, bulky site list last (see ref_cluster.dataset_shape)
     entry = draw(st.sampled_from(list(entries)))
-    case = {"data": data, "metric": draw(st.sampled_from(list(rc.METRICS))), "entry": entry,
-            "seed": draw(st.integers(0, 2 ** 31 - 1))}
+    metric = draw(st.sampled_from(list(rc.METRICS)))
+    shape = draw(rc.dataset_shape(max_n=max_n, max_d=max_d, min_n=min_n))
+    n = shape["n"]
+    case = {"data": None, "metric": metric, "entry": entry, "seed": draw(st.integers(0, 2 ** 31 - 1))}
     if entry in KC_FAMILY:
         case["kc"] = _kc_cfg(draw, n, entry, corner)
     else:
         case["km"] = _km_cfg(draw, n, entry)
+    case["data"] = draw(rc.dataset_sites(shape))
     return case
 
 
